@@ -10,6 +10,7 @@ REALS = ("ValueType is modelled by exact reals (type R): every 'equals its defin
          "the size and growth of IEEE rounding error is NOT decided by this check")
 
 UNITS = {
+    "ind_more": dict(tpl="ind_more.rs.tpl", doc="indicators::{Envelopes, KeltnerChannel} (generic in the moving-average constructor)"),
     "reversal": dict(tpl="reversal.rs.tpl", doc="methods::{UpperReversalSignal, LowerReversalSignal, ReversalSignal}"),
     "window_serde": dict(tpl="window_serde.rs.tpl", doc="Window's hand-written Deserialize checks + snapshot round trip"),
     "ma_laws": dict(tpl="ma_laws.rs.tpl", doc="C15 laws over the SMA/WMA definitions and the EMA recurrence; MovingAverage trait facts for SMA/WMA/EMA"),
